@@ -243,6 +243,11 @@ def run(ctx):
         if not okb: ctx.broken = {'files': re.findall(r'File "([^"]+)", line (\d+)', blog), 'log_tail': blog[-3000:]}
     if not ok:
         ctx.broken_obligation('Properties_C18.vo', getattr(ctx, 'broken', {}))
+    # clone half on the models (Refmap/CloneModel.v, CloneContent.v): well typed script, copy decodes / reads equal, verifier model accepts
+    if os.path.exists(os.path.join(lib.COQ, 'Properties', 'Properties_C18b.v')) and listed_in_coqproject():
+        okb = ctx.check_theorems(prop_module='Properties_C18b')
+        if not okb:
+            ctx.broken_obligation('Properties_C18b.vo', getattr(ctx, 'broken', {}))
     if consts.get('_changed') or not os.path.exists(os.path.join(lib.ROOT, 'build', 'modelrun_refmap')):
         try:
             rebuild_model(ctx)
